@@ -183,6 +183,16 @@ def check(case, ctx):
         fails.append(Fail("surplus-rows", feats, {"surplus": sur.count(), "first": (sur.eq + sur.ineq)[:2]}))
     # start values of the horizon variables
     q0 = dA.values(nA.x0)
+    # ... and of the whole control grid (localized / free grids carry their own time variables)
+    T_start = case["guess_T"] if free in ("T", "both") else (0.0 if free == "Tvar" else c)
+    t0_start = case["guess_t0"] if free in ("t0", "both") else c0
+    if free != "Tvar":
+        g_ = m["grid"]
+        tk_start = np.array([q0[dA.index[("tk", j)]] for j in range(m["N"] + 1)])
+        tol = 2e-5 if g_["cls"] == "density" else 1e-10
+        want_tk = t0_start + T_start * ref.normalized_grid(g_, m["N"])
+        if not close(tk_start, want_tk, tol, tol):
+            fails.append(Fail("time-grid-start", feats, {"start": tk_start, "implied_by_guesses": want_tk}))
     if free in ("T", "both") and not close(q0[dA.index[("T", 0)]], case["guess_T"], 1e-12, 1e-12):
         fails.append(Fail("T-start-value", feats, {"start": q0[dA.index[("T", 0)]], "guess": case["guess_T"]}))
     if free in ("t0", "both") and not close(q0[dA.index[("t0", 0)]], case["guess_t0"], 1e-12, 1e-12):
